@@ -198,5 +198,18 @@ func DefaultIntrinsics() map[string]Intrinsic {
 	atomicIntrinsics(m)
 	timerIntrinsics(m)
 	stdIntrinsics(m)
+	for _, f := range extRegistrars {
+		f(m)
+	}
 	return m
 }
+
+// Per-property engine extensions live in their own files (ext_*.go) and register here from init(),
+// so that independently developed checks do not edit the same switch statements.
+var extRegistrars []func(map[string]Intrinsic)
+
+// RegisterExt adds a function that installs (or overrides) intrinsics; it runs after all built-in ones.
+func RegisterExt(f func(map[string]Intrinsic)) { extRegistrars = append(extRegistrars, f) }
+
+// StubPackage makes every function of the package a no-op returning zero values (loggers, metrics).
+func StubPackage(path string) { stubPkgs[path] = true }
